@@ -18,6 +18,9 @@ def gen_program(rng):
         ('asg', 'pos', None, ('fn', [('k', 'int')], OPT, [('if', ('bin', '>', V('k'), I(0)), [('ret', V('k'))]), ('ret', ('nil',))])),
         ('asg', 'name', None, ('fn', [('k', 'int')], OPTS, [('if', ('bin', '>', V('k'), I(1)), [('ret', ('str', 'n'))]), ('ret', ('nil',))])),
         ('asg', 'dflt', None, ('fn', [('o', OPT), ('d', 'int')], 'int', [('ret', ('nilor', V('o'), V('d')))])),
+        ('asg', 'glob', 'int', I(50)),
+        # the fallback is the ONLY use of the outer variable inside the function
+        ('asg', 'orglob', None, ('fn', [('o', OPT)], 'int', [('ret', ('nilor', V('o'), V('glob')))])),
         ('asg', 'noisy', None, ('fn', [('k', 'int')], 'int', [('print', ('str', 'fallback evaluated')), ('ret', V('k'))])),
     ]
     vars_ = []
@@ -39,8 +42,10 @@ def gen_program(rng):
         elif k < 0.45:
             fb = rng.choice([I(rng.randint(10, 19)), call('noisy', I(rng.randint(20, 29))), ('nilor', V(rng.choice(vars_)), I(77))])
             prog.append(('print', ('bin', '+', ('nilor', V(x), fb), I(1)) if rng.random() < 0.5 else ('nilor', V(x), fb)))
-        elif k < 0.55:
+        elif k < 0.50:
             prog.append(('print', call('dflt', V(x), I(rng.randint(30, 39)))))
+        elif k < 0.55:
+            prog.append(('print', call('orglob', V(x))))
         elif k < 0.65:
             prog.append(('ifelse', ('bin', '==', V(x), ('nil',)), [('print', ('str', 'is nil'))], [('print', ('bin', '*', ('get', V(x)), I(2)))]))
         elif k < 0.72:
